@@ -21,6 +21,9 @@ def gen_cases_corpus(n_gen, seed, opts=None, with_repo=True, base=0, tag='gen'):
         for i, sn in enumerate(cases.snippets()):
             if sn['expect'] in ('success', 'trap'):
                 out.append({'src': 'repo', 'idx': i})
+        from .. import tour
+        for i in range(len(tour.TOUR)):
+            out.append({'src': 'tour', 'idx': i})
     return out
 
 
